@@ -36,7 +36,7 @@ def inject(rng, text, force_kind=None):
                        "redecl_as_const", "redecl_bank_signal", "dup_register", "assign_twice", "assign_twice_builtin",
                        "read_undeclared", "assign_undeclared", "assign_bank_out", "assign_builtin_out", "assign_const",
                        "assign_preamble_const", "const_reads_wire", "default_reads_wire", "partial_disabled_ok",
-                       "assign_twice_in_chain", "assign_twice_in_chain", "bad_bank_name", "partial_shared", "partial_const_enable", "partial_const_enable", "dup_bank_signal", "dup_bank_signal"])
+                       "assign_twice_in_chain", "assign_twice_in_chain", "bad_bank_name", "partial_shared", "partial_const_enable", "partial_const_enable", "dup_bank_signal", "dup_bank_signal", "chain_width_mismatch"])
 
     if force_kind is not None:
         kind = force_kind
@@ -150,6 +150,14 @@ def inject(rng, text, force_kind=None):
                     free_up.remove(u3)
                     extra += ["register %s%s { %s : %d = 0; }" % (l3, u3, rname, rng.choice([1, 8, 64])), "%s_%s = 0;" % (l3, rname)]
             return add("register %s { %s : %d = 0; }" % (nb, rname, w2), *extra), "DoubleDeclaredRegisterOutWire", sig, kind
+    if kind == "chain_width_mismatch":
+        # one statement driving two wires of different widths with a sized value: it fits one of them only -
+        # whichever the checker looks at first, the program is rejected naming the other
+        wa, wb = rng.sample([1, 3, 4, 8, 16, 64], 2)
+        val = "(P_pc)[0..%d]" % wa if wa <= 64 else "0"
+        names_ = ["cwa9", "cwb9"]
+        rng.shuffle(names_)
+        return add("wire cwa9 : %d;" % wa, "wire cwb9 : %d;" % wb, "%s = %s = %s;" % (names_[0], names_[1], val)), "MismatchedWireWidths", "cwb9", kind
     if kind == "redecl_wire" and wires:
         w = rng.choice(wires)
         return add("wire %s : %d;" % (w, rng.choice([1, 8, 64]))), "RedeclaredWire", w, kind
@@ -169,6 +177,10 @@ def inject(rng, text, force_kind=None):
         b = rng.choice(rbanks)
         r = re.findall(r"(\w+) : \d+ =", b.group(3))[0]
         w = rng.choice([b.group(2) + "_" + r, b.group(1) + "_" + r, "stall_" + b.group(2), "bubble_" + b.group(2)])
+        if rng.random() < 0.35:
+            # the same clash with a CONSTANT of that name (a bank's output signal)
+            w = b.group(2) + "_" + r
+            return add("const %s = %d;" % (w, rng.randint(0, 9))), "RedeclaredWire", w, kind
         return add("wire %s : %d;" % (w, rng.choice([1, 8]))), "RedeclaredWire", w, kind
     if kind == "dup_register" and rbanks:
         b = rng.choice(rbanks)
@@ -301,7 +313,7 @@ def check(report, tier, seed):
     report.coverage["evaluations"] = len(cases)
     report.coverage["distinct_nontrivial"] = len(set(c["hcl"] for c in cases.values() if c["fault"] != "none"))
     report.coverage["rule"] = ("a correct random program (1-12, thorough up to 40 wires, banks, register file, memory) with exactly one injected driver fault "
-                               "of a known kind on a known name (27 fault classes incl. a second bank sharing a prefix letter and a register name with another one, a partial component next to a port switched off by a constant-0 enable, a write port without data whose enable is one of 40 constant expressions (over-wide concatenations, division by zero, huge shifts; judged by the model only), a write port left with only the address it shares with the complete read port, malformed bank names, a name repeated within one chained assignment, over plain wires, constants incl. preamble ones, bank inputs/outputs, "
+                               "of a known kind on a known name (28 fault classes incl. a constant named like a bank's output, one statement driving two wires of different widths, a second bank sharing a prefix letter and a register name with another one, a partial component next to a port switched off by a constant-0 enable, a write port without data whose enable is one of 40 constant expressions (over-wide concatenations, division by zero, huge shifts; judged by the model only), a write port left with only the address it shares with the complete read port, malformed bank names, a name repeated within one chained assignment, over plain wires, constants incl. preamble ones, bank inputs/outputs, "
                                "stall/bubble, built-in inputs/outputs), or none; oracle 1: rejected with a diagnostic of that kind naming that wire / accepted "
                                "when fault-free; oracle 2: verdict, diagnostic multiset and compiled program equal the model's build_program")
     report.coverage["distribution"] = dict(stats, **{"fault_" + k2: v2 for k2, v2 in by.items()})
